@@ -11,7 +11,7 @@ func checkC08(p *Program, r *Reporter) {
 	r.NotCovered = "nil-ness of fields of decoded mp4ff/dash-mpd/etree objects; loop-carried indices of the audio re-segmentation; memory exhaustion; wording of 4xx messages; wall-time bound"
 	r.Assumptions = []string{"explicit data flow only (selection of an asset/representation by a request does not taint the selected object)",
 		"integer overflow/truncation in conversions is not modelled", "VTA call graph resolves dynamic calls soundly", "GOARCH=amd64"}
-	e := newE3(p, r)
+	e := sharedE3(p, r)
 	r.Rule("E3-A", "integer / and % with a request-controlled divisor: divisor proven non-zero", 40)
 	e.classA("E3-A", e.fns)
 	r.Rule("E3-B1", "constant index/slice bound on request-derived slice/string: length proven", 10)
@@ -26,4 +26,6 @@ func checkC08(p *Program, r *Reporter) {
 	r.Rule("E3-D1", "pointer result of a repository function that may return nil: tested (or its error tested) before dereference", 0)
 	r.Rule("E3-D2", "pointer field that is nil-tested somewhere (or a parameter fed from one): non-nil test dominates every dereference", 10)
 	e.classD("E3-D", e.fns)
+	checkCursorProgress(p, r, e.fns, "E3-F1", 1)
+	checkChannelOps(p, r, "E3-F2", 3)
 }
